@@ -946,7 +946,8 @@ class VM:
         # Numeric addition
         return as_double(to_number(a) + to_number(b))
 
-    def _pow(self, base: Union[int, float], exponent: Union[int, float]) -> float:
+    @staticmethod
+    def _pow(base: Union[int, float], exponent: Union[int, float]) -> float:
         """Number::exponentiate on doubles (the host ** yields big integers, complex
         numbers, ZeroDivisionError and OverflowError, and 1 ** NaN == 1)."""
         base, exponent = float(base), float(exponent)
